@@ -34,20 +34,21 @@ NoObs ==
      snap |-> <<>>,                   \* the latest snapshot seen
      evs |-> <<>>,                    \* events of the ceremony, in order (without Begin)
      last |-> "Reset",
-     prevRun |-> [valid |-> FALSE]]   \* summary of the previous run's first ceremony (non-interference)
+     cers |-> <<>>,                   \* finished ceremonies of this run: [b, evs, snap0, snap]
+     prevRun |-> [valid |-> FALSE]]   \* the previous run: [valid, run, cfg, cers] (non-interference, trait = direct)
 
 Observe(o, e) ==
     CASE e.ev = "Reset" ->
-           [NoObs EXCEPT !.run = e.run, !.cfg = e.cfg, !.snap = e.store, !.snap0 = e.store, !.prevRun = o.prevRun]
+           [NoObs EXCEPT !.run = e.run, !.cfg = e.cfg, !.snap = e.store, !.snap0 = e.store,
+                         !.prevRun = IF o.run >= 0 THEN [valid |-> TRUE, run |-> o.run, cfg |-> o.cfg, cers |-> o.cers]
+                                     ELSE o.prevRun]
       [] e.ev = "Begin" ->
            [o EXCEPT !.active = TRUE, !.b = e.d, !.snap0 = o.snap, !.evs = <<>>, !.last = "Begin"]
       [] e.ev = "Store" ->
            [o EXCEPT !.snap = e.d.snap, !.evs = Append(o.evs, e), !.last = "Store"]
       [] e.ev = "Snap" ->
            [o EXCEPT !.snap = e.d.snap, !.active = FALSE, !.last = "Snap",
-                     !.prevRun = IF o.prevRun.valid /\ o.prevRun.run = o.run THEN o.prevRun
-                                 ELSE [valid |-> TRUE, run |-> o.run, cfg |-> o.cfg, b |-> o.b,
-                                       snap0 |-> o.snap0, evs |-> o.evs]]
+                     !.cers = Append(o.cers, [b |-> o.b, evs |-> o.evs, snap0 |-> o.snap0, snap |-> e.d.snap])]
       [] OTHER ->
            [o EXCEPT !.evs = Append(o.evs, e), !.last = e.ev]
 
@@ -114,7 +115,7 @@ C04_ConsentBeforeSignature(o) ==
     (IsGa(o) /\ EndOk(o)) => ConsentBefore(o, Len(o.evs) + 1)
 
 C04_FlagsTruthful(o) ==
-    EndOk(o) /\ o.b.api # "u2f" =>
+    EndOk(o) /\ o.b.api # "u2f" /\ o.b.op \in {"mc", "ga"} =>
         /\ Prompts(o) # <<>>
         /\ LET p == Prompts(o)[Len(Prompts(o))].d
                f == ToSetA(EndD(o).flags)
@@ -141,12 +142,13 @@ C04_NoDisclosureBeforeConsent(o) ==
 
 \* non-interference: while consent is missing the outcome does not depend on whether a matching credential
 \* exists.  Judged on consecutive runs that differ only in the store content.
-SameButStore(o) ==
-    /\ o.prevRun.valid /\ o.prevRun.run # o.run
-    /\ o.prevRun.cfg = o.cfg /\ o.prevRun.b = o.b
+\* the ceremony of the previous run at the same position as the one just finished
+PrevCer(o) == o.prevRun.cers[Len(o.cers)]
+HasPrevCer(o) == o.prevRun.valid /\ o.prevRun.cfg = o.cfg /\ Len(o.cers) >= 1 /\ Len(o.cers) <= Len(o.prevRun.cers)
+SameButStore(o) == HasPrevCer(o) /\ Len(o.cers) = 1 /\ PrevCer(o).b = o.b
 C04_NonInterference(o) ==
     (Finished(o) /\ SameButStore(o) /\ ConsentMissing(o) /\ ~Cancelled(o) /\ ~Crashed(o)) =>
-        LET pe == SelectSeq(o.prevRun.evs, LAMBDA e : e.ev = "End")
+        LET pe == SelectSeq(PrevCer(o).evs, LAMBDA e : e.ev = "End")
         IN /\ pe # <<>> /\ Ends(o) # <<>>
            /\ pe[1].d.ok = EndD(o).ok /\ pe[1].d.err = EndD(o).err /\ pe[1].d.werr = EndD(o).werr
 
@@ -401,6 +403,19 @@ C09_MalformedRejectedEarly(o) ==
         /\ \A i \in 1..Len(o.evs) : ~Touches(o.evs[i])
 
 -----------------------------------------------------------------------------
+(* C18 - the sealed CTAP2 API trait equals the direct methods: the run through the trait is adjacent to the
+   same run through the direct methods (same configuration, store, requests, environment)                    *)
+
+Terminal(evs) == SelectSeq(evs, LAMBDA e : e.ev \in {"End", "Cancel", "Crash"})
+SameRequest(a, b) == a.op = b.op /\ a.req = b.req /\ a.env = b.env
+C18_SameAsDirect(o) ==
+    (o.b.api = "trait" /\ Finished(o) /\ HasPrevCer(o) /\ PrevCer(o).b.api = "ctap2" /\ SameRequest(PrevCer(o).b, o.b)) =>
+        /\ Terminal(o.evs) = Terminal(PrevCer(o).evs)
+        /\ SnapSet(o.snap) = SnapSet(PrevCer(o).snap)
+        /\ Len(SelectSeq(o.evs, LAMBDA e : e.ev = "Store")) = Len(SelectSeq(PrevCer(o).evs, LAMBDA e : e.ev = "Store"))
+        /\ Len(Prompts(o)) = Len(SelectSeq(PrevCer(o).evs, LAMBDA e : e.ev = "Prompt"))
+
+-----------------------------------------------------------------------------
 \* the names of the invariants that are false in o
 Violated(o) ==
     IF ~o.b.api \in {"ctap2", "trait", "client", "u2f"} THEN {}
@@ -433,6 +448,7 @@ Violated(o) ==
     \cup (IF ~C03_Assertion(o) THEN {"C03.Assertion"} ELSE {})
     \cup (IF ~C03_NoEligibleCredential(o) THEN {"C03.NoEligibleCredential"} ELSE {})
     \cup (IF ~C09_Results(o) THEN {"C09.Results"} ELSE {})
+    \cup (IF ~C18_SameAsDirect(o) THEN {"C18.SameAsDirect"} ELSE {})
     \cup (IF ~C01_RejectedNeverReaches(o) THEN {"C01.RejectedNeverReaches"} ELSE {})
     \cup (IF ~C01_EffectiveRpUsed(o) THEN {"C01.EffectiveRpUsed"} ELSE {})
     \cup (IF ~C02_ClientData(o) THEN {"C02.ClientData"} ELSE {})
